@@ -269,3 +269,183 @@ func init() {
 		}
 	}
 }
+
+// ---------------- C41.R6 / R7 (round 3 seeds) ----------------
+
+// checkJSONFormatDecidedFirst (C41.R6): in a pkg/cli function with a bool parameter named json, every return that hands
+// back output lines ([]string result that is not the nil constant) lies behind a test of that parameter. A line returned
+// before the format was looked at ("0 annotations available") is text on a stdout that was asked to carry one JSON document.
+func checkJSONFormatDecidedFirst(c *Ctx) {
+	p, r := c.P, c.R
+	n := 0
+	for _, fn := range p.Funcs {
+		if fn.Pkg == nil || fn.Pkg.Pkg.Path() != modPath+"/pkg/cli" || fn.Parent() != nil {
+			continue
+		}
+		var jp *ssa.Parameter
+		for _, prm := range fn.Params {
+			if prm.Name() == "json" {
+				if bt, ok := prm.Type().Underlying().(*types.Basic); ok && bt.Kind() == types.Bool {
+					jp = prm
+				}
+			}
+		}
+		if jp == nil {
+			continue
+		}
+		// result index of the []string
+		ri := -1
+		res := fn.Signature.Results()
+		for i := 0; i < res.Len(); i++ {
+			if res.At(i).Type().String() == "[]string" {
+				ri = i
+			}
+		}
+		if ri < 0 {
+			continue
+		}
+		var edges []Edge
+		for _, al := range aliasesOf(jp) {
+			edges = append(edges, condEdges(al, true)...)
+			edges = append(edges, condEdges(al, false)...)
+		}
+		fid := FuncID(fn)
+		k := 0
+		for _, ret := range returnsOf(fn) {
+			if ri >= len(ret.Results) {
+				continue
+			}
+			v := ret.Results[ri]
+			if cst, ok := v.(*ssa.Const); ok && cst.IsNil() {
+				continue
+			}
+			// only lines made in this function are its responsibility: a slice literal or an append here.
+			// What a callee hands back (directly, through a struct field or a generic helper) was formatted there.
+			forwarded := true
+			for _, l := range valueLeaves(v) {
+				switch x := l.(type) {
+				case *ssa.Slice:
+					if _, isAlloc := x.X.(*ssa.Alloc); isAlloc {
+						forwarded = false // slice literal
+					}
+				case *ssa.MakeSlice:
+					forwarded = false
+				case *ssa.Call:
+					if b, ok := x.Call.Value.(*ssa.Builtin); ok && b.Name() == "append" {
+						forwarded = false
+					}
+				}
+			}
+			k++
+			n++
+			construct := fmt.Sprintf("return#%d output", k)
+			dom := false
+			for _, e := range edges {
+				if edgeDominates(e, ret.Block()) {
+					dom = true
+				}
+			}
+			switch {
+			case dom:
+				r.OK("C41.R6", fid, construct, posOrFn(p, ret, fn), "output lines are returned only after the json flag was tested", true)
+			case forwarded:
+				r.OK("C41.R6", fid, construct, posOrFn(p, ret, fn), "the lines are what a callee handed back (formatted there)", false)
+			default:
+				r.Bad("C41.R6", fid, construct, posOrFn(p, ret, fn), "output lines are returned on a path that never looked at the json flag: with --json the caller prints them to a standard output that is supposed to carry exactly one JSON document")
+			}
+		}
+	}
+	if n == 0 {
+		r.Bad("C41.R6", "pkg/cli", "anchor", "", "UNRESOLVED-ANCHOR: no pkg/cli function with a json flag returns output lines")
+	}
+}
+
+// checkSelectionSetLength (C41.R7): a page selection set (types.IntSet) also holds entries that are false (pages a negated
+// term deselected). Its length is therefore only good for an emptiness test or a capacity hint — never for "exactly one
+// page selected", which is what the stdout variant of `extract -m page` has to establish to match the file variant.
+func checkSelectionSetLength(c *Ctx) {
+	p, r := c.P, c.R
+	n := 0
+	for _, fn := range p.Funcs {
+		if !isSubject(fn) {
+			continue
+		}
+		fid := FuncID(fn)
+		if !strings.HasPrefix(fid, "pkg/cli.") && !strings.HasPrefix(fid, "pkg/api.") && !strings.HasPrefix(fid, "pkg/pdfcpu.") && !strings.HasPrefix(fid, "pkg/pdfcpu/model.") {
+			continue
+		}
+		fn := fn
+		k := 0
+		eachInstr(fn, func(_ *ssa.BasicBlock, _ int, i ssa.Instruction) {
+			call, ok := i.(*ssa.Call)
+			if !ok {
+				return
+			}
+			b, ok := call.Call.Value.(*ssa.Builtin)
+			if !ok || b.Name() != "len" || len(call.Call.Args) != 1 || !isSelectionSet(call.Call.Args[0].Type()) {
+				return
+			}
+			if !isPageSelectionValue(call.Call.Args[0]) {
+				return // types.IntSet is also used for sets of object numbers
+			}
+			k++
+			n++
+			construct := fmt.Sprintf("len(selection)#%d", k)
+			bad := ""
+			if call.Referrers() != nil {
+				for _, rf := range *call.Referrers() {
+					switch x := rf.(type) {
+					case *ssa.BinOp:
+						other := x.Y
+						if x.Y == ssa.Value(call) {
+							other = x.X
+						}
+						if kk, ok := constInt(other); ok && kk == 0 {
+							continue
+						}
+						bad = "it is used in `" + x.Op.String() + "` with something other than 0 at " + p.Pos(x.Pos())
+					case *ssa.MakeSlice, *ssa.MakeMap, *ssa.DebugRef:
+						continue
+					case *ssa.Convert:
+						continue
+					default:
+						bad = fmt.Sprintf("it is used by %T at %s", rf, p.Pos(rf.Pos()))
+					}
+				}
+			}
+			if bad != "" {
+				r.Bad("C41.R7", fid, construct, p.Pos(call.Pos()), "the length of a page selection set is used as a page count ("+bad+"): the set also holds the pages a negated term deselected (value false), so `-p 2-3,!3` has length 2 but selects one page")
+			} else {
+				r.OK("C41.R7", fid, construct, p.Pos(call.Pos()), "used only for an emptiness test or a capacity hint", true)
+			}
+		})
+	}
+	if n == 0 {
+		r.Bad("C41.R7", "-", "anchor", "", "UNRESOLVED-ANCHOR: no len() of a selection set found")
+	}
+}
+
+// isPageSelectionValue: an IntSet that is a page selection — the result of the selection producers of pkg/api, or a
+// parameter / local named like one.
+func isPageSelectionValue(v ssa.Value) bool {
+	for _, l := range valueLeaves(v) {
+		switch x := l.(type) {
+		case *ssa.Parameter:
+			n := strings.ToLower(x.Name())
+			if strings.Contains(n, "pages") || strings.Contains(n, "selected") {
+				return true
+			}
+		case *ssa.Extract:
+			if call, ok := x.Tuple.(*ssa.Call); ok {
+				if _, ref := callRef(call); strings.Contains(ref, "PagesForPageSelection") || strings.HasSuffix(ref, ".selectedPages") || strings.Contains(ref, "RemainingPagesForPageRemoval") {
+					return true
+				}
+			}
+		case *ssa.Call:
+			if _, ref := callRef(x); strings.Contains(ref, "PagesForPageSelection") || strings.HasSuffix(ref, ".selectedPages") {
+				return true
+			}
+		}
+	}
+	return false
+}
